@@ -24,7 +24,8 @@ func init() {
 			"C04.exact: the reading side is exact near 2^64 — newSize as a decision table with the product checked through the high word of bits.Mul64 (C08's rules under this property), and the text path reads its digits with strconv.ParseUint(·, 10, 64) on every target (C08.text). C04.quote: the string form is exactly '\"' + text + '\"' (the shift-by-one copy idiom is checked piece by piece). " +
 			"C04.vocab: Shorten evaluated abstractly (as C13.shorten) returns (s >> 10k, k-th binary unit) and unitToValues maps that unit to 2^(10k), so value × multiplier rebuilds what Shorten split. " +
 			"C04.keys: the reader switches on the marshal key constants after strings.ToLower, and the constants are lower-case. " +
-			"C04.sep: the text parser's scanning loop as a transfer table over a partition of all rune values × (nothing kept yet / something kept), by abstract interpretation of the loop body: space is skipped everywhere, '_' and no-break space only after the first digit, digits are kept, every other rune ends the number — so what the pretty formatter emits (\" \") is skipped before and between digits and before the unit; units are letters only, so the hand-made quoting needs no escaping. C04.limit: MaxInputLength admits the longest emitted form. C04.render: String / PrettyString are the formatter's bytes converted, nothing inserted or replaced afterwards, and those bytes are the decimal digits of the shortened value (grouped in threes under FormatPretty) followed by the unit (C13.methods and C13.format under this property).",
+			"C04.sep: the text parser's scanning loop as a transfer table over a partition of all rune values × (nothing kept yet / something kept), by abstract interpretation of the loop body: space is skipped everywhere, '_' and no-break space only after the first digit, digits are kept, every other rune ends the number — so what the pretty formatter emits (\" \") is skipped before and between digits and before the unit; units are letters only, so the hand-made quoting needs no escaping. C04.limit: MaxInputLength admits the longest emitted form. C04.render: String / PrettyString are the formatter's bytes converted, nothing inserted or replaced afterwards, and those bytes are the decimal digits of the shortened value (grouped in threes under FormatPretty) followed by the unit (C13.methods and C13.format under this property)." +
+			" Added after the second rule audit: C04.reader files the whole of C12.keys (decodeValue/decodeUnit tables, newOrError, arms, skipper) and C08.object's 'number error' (the parsed number is handed on only where ParseUint's error is nil); C04.quote reads exactly one construction of the string form (one quote-appending append, one copy, one byte store) and every return that hands back the text goes through it; a string form built by appends alone is evaluated as a whole ('\"' + text + '\"').",
 		NotDecided:  []string{"the arithmetic composition for all 2^64 values (digit grouping composed with ParseUint of the regrouped digits)", "nested encoding/json behaviour (stdlib)"},
 		Assumptions: []string{"strconv.AppendUint/FormatUint print canonical decimal; ParseUint inverts them"},
 		Technique:   "decision-table extraction + constant/table agreement + SSA idiom rules",
@@ -92,6 +93,16 @@ func runC04(e *Env) {
 	// … and the member loop reads the two members as written: the arms, the duplicate tests, the loop discipline (no
 	// foreign test, no rewriting of a decoded member) and the skipper (C12.keys)
 	e.As(map[string]string{"C12.keys": "C04.reader"}, func() { ruleC12Keys(e) })
+	// the default member limit admits the two members the writer emits
+	if g := e.Var("C04.reader", "size", "MaxObjectKeys"); g != nil {
+		if v, ok := e.globalIntInit(g); !ok {
+			e.S.Unk("C04.reader", "size.MaxObjectKeys", "default", "initial value is not a constant", "")
+		} else if v != 0 && v < 2 {
+			e.S.Bad("C04.reader", "size.MaxObjectKeys", "default", fmt.Sprintf("the default member limit %d refuses the two-member object the marshaller writes", v), "", `{"value":1,"unit":"B"}`)
+		} else {
+			e.S.Ok("C04.reader", "size.MaxObjectKeys", "default", fmt.Sprintf("default %d admits the marshalled object's two members", v), "")
+		}
+	}
 	e.S.Floor("C04.reader", 44)
 }
 
